@@ -5,6 +5,7 @@ Open Scope Z_scope.
 
 Section AbortProofs.
   Variable scan_last : nat -> Z -> bool.
+  Variable finished : nat -> Z -> bool.
 
   Lemma existsb_flat_map_false {A} (f : A -> list ev) (p : ev -> bool) l :
     (forall a, existsb p (f a) = false) -> existsb p (flat_map f l) = false.
@@ -20,7 +21,7 @@ Section AbortProofs.
   Qed.
 
   Theorem byline_abort_truthful n i l :
-    raised (byline_abort scan_last n i l) = true /\ status_complete (byline_abort scan_last n i l) = false.
+    raised (byline_abort scan_last finished n i l) = true /\ status_complete (byline_abort scan_last finished n i l) = false.
   Proof.
     unfold byline_abort, raised, status_complete. cbn [existsb]. rewrite !existsb_app. cbn [existsb].
     split; [rewrite !orb_true_r; reflexivity|].
@@ -29,6 +30,39 @@ Section AbortProofs.
     { intros g l0 Hg. induction l0 as [|a l0 IH]; [reflexivity|]. cbn. rewrite Hg, IH. reflexivity. }
     rewrite !A by (intros; reflexivity). reflexivity.
   Qed.
+
+  (** breadth-first: every member is saved; one whose scan ended on an earlier line is recorded as completed, the others
+      with the truth about the line they are on (members up to the aborting one: l, the later ones: l - 1) *)
+  Lemma filter_saved_started k (g : nat -> ev) (l0 : list nat) : (forall j, match g j with MemberSaved _ _ => False | _ => True end) ->
+    filter (fun e => match e with MemberSaved k0 _ => Nat.eqb k0 k | _ => false end) (map g l0) = [].
+  Proof. intros Hg. induction l0 as [|a l0 IH]; [reflexivity|]. cbn [map filter]. specialize (Hg a). destruct (g a); try exact IH; contradiction. Qed.
+
+  Lemma filter_saved_seq (f : nat -> bool) k : forall m a, (a <= k < a + m)%nat ->
+    filter (fun e => match e with MemberSaved k0 _ => Nat.eqb k0 k | _ => false end) (map (fun j => MemberSaved j (f j)) (seq a m)) = [MemberSaved k (f k)].
+  Proof.
+    induction m as [|m IH]; intros a H; [lia|]. cbn [seq map filter].
+    destruct (Nat.eqb a k) eqn:E.
+    - apply Nat.eqb_eq in E. subst a. f_equal.
+      assert (N: forall m' b, (k < b)%nat -> filter (fun e => match e with MemberSaved k0 _ => Nat.eqb k0 k | _ => false end) (map (fun j => MemberSaved j (f j)) (seq b m')) = []).
+      { induction m' as [|m' IH']; intros b Hb; [reflexivity|]. cbn [seq map filter]. assert (Nat.eqb b k = false) as -> by (apply Nat.eqb_neq; lia). apply IH'. lia. }
+      apply N. lia.
+    - apply Nat.eqb_neq in E. apply IH. lia.
+  Qed.
+
+  Theorem byline_abort_saved n i l j : (j < n)%nat ->
+    saved (byline_abort scan_last finished n i l) j =
+      Some (let cur := if Nat.leb j i then l else l - 1 in if finished j cur then true else scan_last j cur).
+  Proof.
+    intros Hj. unfold saved, byline_abort. cbn [filter]. rewrite !filter_app.
+    rewrite (filter_saved_started j MemberStarted) by (intros; exact I). cbn [filter app].
+    cbv zeta.
+    rewrite (filter_saved_seq (fun j0 => if finished j0 (if Nat.leb j0 i then l else l - 1) then true else scan_last j0 (if Nat.leb j0 i then l else l - 1)) j n 0) by lia.
+    reflexivity.
+  Qed.
+
+  Corollary byline_abort_finished_member n i l j : (j < n)%nat -> finished j (if Nat.leb j i then l else l - 1) = true ->
+    saved (byline_abort scan_last finished n i l) j = Some true.
+  Proof. intros Hj Hf. rewrite (byline_abort_saved n i l j Hj). cbn zeta. rewrite Hf. reflexivity. Qed.
 
   (** the aborting member's record carries the aborting error with its line number, and is saved *)
   Theorem serial_abort_member i l :
